@@ -18,6 +18,7 @@ import (
 
 	"ergo.services/ergo/gen"
 	"ergo.services/ergo/lib"
+	"ergo.services/ergo/net/edf"
 	"ergo.services/ergo/net/handshake"
 )
 
@@ -651,4 +652,13 @@ func SimCert() tls.Certificate {
 		simCert.cert = tls.Certificate{Certificate: [][]byte{der}, PrivateKey: priv}
 	})
 	return simCert.cert
+}
+
+// The name of a node is added to a process-wide atom cache (edf.RegisterAtom) when the node starts,
+// and the handshake of every later connection carries that cache: a name first used in the middle
+// of a run would make the first run of a process differ from all later ones.
+func init() {
+	for _, n := range []gen.Atom{"a@h1", "b@h2", "c@h3", "d@h4"} {
+		edf.RegisterAtom(n)
+	}
 }
